@@ -260,10 +260,28 @@ def run(M, rep, tier, only=None):
                       detail=describe_path(bad6[0], 50) if bad6 else None)
             cp = um.funcs.get("create_property")
             if cp is not None:
+                # on the abstract paths of the helper: data under the given name; definition and unit stored as given (decoding
+                # bytes is fine, any other function applied to them changes what the old file said)
                 okc = False
-                for n in ast.walk(cp.node):
-                    if isinstance(n, ast.Call) and isinstance(n.func, ast.Attribute) and n.func.attr in ("create_dataset", "require_dataset"):
-                        kws = {k.arg: ast.unparse(k.value) for k in n.keywords}
-                        if n.args and ast.unparse(n.args[0]) == "name" and kws.get("data") == "data":
+                why = "create_property does not store the given data under the given name"
+                for p in explore(cfg, cp, None, None, 400):
+                    for e in p.events:
+                        if e.op.split(".")[-1] in ("create_dataset", "require_dataset") and e.key is not None and e.key.t == ("param", "name") \
+                                and e.kw.get("data") is not None and e.kw["data"].t == ("param", "data"):
                             okc = True
-                rep.check(R6, "create_property", okc, "create_property does not store the given data under the given name", site=cp.file)
+                bad_attr = None
+                for p in explore(cfg, cp, None, None, 400):
+                    for e in p.events:
+                        if e.op.split(".")[-1] in ("setitem", "__setitem__") and e.key is not None and is_const(e.key) and \
+                                e.key.t[1] in ("definition", "unit") and e.args:
+                            t = e.args[0].t
+                            while t and t[0] == "mcall" and t[1] in ("decode", "strip") and not t[3][1:]:
+                                t = t[2]
+                            if t and t[0] == "call" and str(t[1]).split(".")[-1] in ("ensure_str", "ensure_text", "str") and len(t[2]) == 1:
+                                t = t[2][0]
+                            if t != ("param", e.key.t[1]):
+                                bad_attr = (e.key.t[1], show(e.args[0].t)[:100])
+                if bad_attr:
+                    okc = False
+                    why = "create_property stores %s as %s, not as it was read from the old file" % bad_attr
+                rep.check(R6, "create_property", okc, why, site=cp.file)
